@@ -68,6 +68,7 @@ def gen_cases(tier, seed):
         shells, classes = bases.tight_far_pair(rng, la, lb)
         cases.append({"shells": shells, "classes": classes + ["l:%d,%d" % (la, lb), "nsh:2"], "cost": 30})
     cases += bases.dup_variants("C01", seed, tier, cases, 9)  # one shell listed twice as the same object
+    cases += bases.argrep_variants("C01", seed, tier, cases, 7, ok=lambda c: "shells" in c and c.get("kind") in (None, "whole", "kernel", "perm", "real"))  # constructor arguments in other in-memory representations
     return cases
 
 
